@@ -77,7 +77,7 @@ class Check:
             faults = []
             for _ in range(rnd.randint(1, 4)):
                 s = rnd.randrange(1, max(2, n - 1))
-                faults.append({'kind': 'dropout', 'sensor': rnd.choice([['acc'], ['acc'], ['acc', 'mag']]), 'start': s, 'len': rnd.choice([1, 2, 5, 20, 60])})
+                faults.append({'kind': 'dropout', 'sensor': rnd.choice([['acc'], ['acc'], ['acc', 'mag'], ['mag']]), 'start': s, 'len': rnd.choice([1, 2, 5, 20, 60])})
             world['faults'] = faults
             return {'family': 'deadreckon', 'world': world, 'gains': {'madgwick': 10 ** rnd.uniform(-2, 0), 'kP': 10 ** rnd.uniform(-1, 0.7),
                     'kI': 10 ** rnd.uniform(-2, 0), 'alpha': 10 ** rnd.uniform(-2, -0.3)}, 'b0': [rnd.gauss(0, 0.05) for _ in range(3)],
@@ -244,6 +244,8 @@ class Check:
             ('aqua_imu', {'alpha': g['alpha'], 'beta': g['alpha']}),
             ('aqua_marg', {'alpha': g['alpha'], 'beta': g['alpha']}),
             ('roleq', {'frame': 'NED'}),        # a null sample makes ROLEQ.update return its propagation step alone
+            ('roleq', {'frame': 'NED', 'weights': [1.0, 0.0]}),     # ... whatever the weights given to the two sensors
+            ('roleq', {'frame': 'NED', 'weights': [0.0, 1.0]}),
         ]
         chans = [C.KINDS[k].refs(p, dip) for k, p in nodes]
         hist = W.build(world, chans)
@@ -274,20 +276,22 @@ class Check:
                     viol.append(self._v(name, f'crash:{type(e).__name__}', k, f'tick {k}: {type(e).__name__}: {e}'))
                     break
                 stats['steps'] += 1
-                if not np.any(ak) and np.any(gk):
+                if (not np.any(ak) or (name == 'roleq' and not np.any(mk))) and np.any(gk):
                     hits += 1
                     ref = qm.qconj(first_order(qm.qconj(prev), gk, dt_used)) if kind.conj else first_order(prev, gk, dt_used)
                     d = float(np.abs(q - ref).max())
                     stats['max_dead_reckoning_defect'] = max(stats.get('max_dead_reckoning_defect', 0.0), d)
                     log.add('dr', name, k, q)
                     if not d <= TOL_DR:
-                        viol.append(self._v(name, 'dead-reckoning-step', k, f'tick {k} (null accelerometer): output differs from the normalised first-order step of the previous output by {d:.3g}; gyr={np.array2string(gk, precision=4)} dt={dt}'))
+                        viol.append(self._v(name, 'dead-reckoning-step', k, f'tick {k} (null {"accelerometer" if not np.any(ak) else "magnetometer"} sample{", weights " + str(p["weights"]) if p.get("weights") else ""}): output differs from the normalised first-order step of the previous output by {d:.3g}; gyr={np.array2string(gk, precision=4)} dt={dt}'))
                         break
         # public prediction steps on every tick, from the truth as prior
         for k in range(1, hist.n):
             prior, gk = hist.truth[k - 1], hist.gyr[k]
             ref = first_order(prior, gk, dt)
-            for comp, val in (('ekf_f', ekf.f(prior.copy(), gk, dt)), ('roleq_prop', roleq.attitude_propagation(prior.copy(), gk, dt))):
+            wk = np.array(gk, dtype=float)      # a time update written by hand: Jacobian first, then the prediction, one rate array
+            ekf.dfdq(wk, dt)
+            for comp, val in (('ekf_f', ekf.f(prior.copy(), wk, dt)), ('roleq_prop', roleq.attitude_propagation(prior.copy(), gk, dt))):
                 val = np.asarray(val, dtype=float)
                 d = float(np.abs(qm.qnorm(val) - ref).max())
                 if not d <= TOL_DR:
